@@ -16,8 +16,8 @@ from ..flow import Flow, conjuncts, emptiness_test_kind, iteration_constructs
 TREES = "typhon/trees.py"
 FILESET = "typhon/files/fileset.py"
 
-EXPECT = {"C03.pred": 2, "C03.partition": 2, "C03.descent": 12, "C03.early": 2, "C03.rows": 4,
-          "C03.empty": 2, "C03.scan": 6, "C03.match": 16, "C03.extent": 2, "C03.member": 1, "C03.api": 2}
+EXPECT = {"C03.args": 4, "C03.pred": 2, "C03.partition": 2, "C03.descent": 12, "C03.early": 2, "C03.rows": 4,
+          "C03.empty": 2, "C03.scan": 8, "C03.match": 16, "C03.extent": 2, "C03.member": 1, "C03.api": 2}
 
 
 def OVspec(a, b):
@@ -420,6 +420,7 @@ class TreeFacts:
         comp = ic["node"]
         ctx.ob(construct + ".rows", it.attr == center_attr, "iterates %s" % norm(it),
                "%s.%s (the centre bin stored by IntervalTreeNode)" % (nodep, center_attr), node=comp, func=f)
+        self._scan_guard(ctx, f, flow, fname, kind, comp, q, nodep, center_attr, construct)
         row = ic["target"].id if isinstance(ic["target"], ast.Name) else None
         if row is None:
             raise AnalysisError("scan target is not a name")
@@ -448,6 +449,56 @@ class TreeFacts:
             and isinstance(elt.slice, ast.Constant) and elt.slice.value in (2, -1)
         ctx.ob(construct + ".index", ok, "collects %s" % norm(ic["elts"][0]), "the index column (column 2 / last) of the row",
                node=comp, func=f)
+
+    def _scan_guard(self, ctx, f, flow, fname, kind, comp, q, nodep, center_attr, construct):
+        """the scan of the centre rows is skipped only when no centre row can match: decided over all centre bins of up to three
+        rows (each containing the centre point, in the order the tree stores them) and all queries on a small grid"""
+        from ..flow import guard_chain
+        st = enclosing_stmt(comp)
+        chain = [(flow.resolve(t_, at=st, stop=(q, nodep)), pol_) for t_, pol_ in guard_chain(st)]
+        if not chain:
+            ctx.ob(construct + ".always", True, "the scan is unconditional", "every centre row of a visited node is looked at", node=comp, func=f)
+            return
+        init = ctx.func(TREES, "IntervalTree.__init__")
+        by_lower = any(norm(c_.args[0]).replace(" ", "").endswith("[:,0]") for c_ in calls_in(init.node, "argsort") if c_.args)
+        C = "%s.%s" % (nodep, center_attr)
+        grid = range(4)
+        bad = None
+        n = 0
+        rows_all = [(l, r) for l in grid for r in grid if l <= r]
+        for k in (1, 2, 3):
+            for rows in itertools.product(rows_all, repeat=k):
+                if by_lower and any(rows[i][0] > rows[i + 1][0] for i in range(k - 1)):
+                    continue
+                for cp in grid:
+                    if any(not (l <= cp <= r) for l, r in rows):
+                        continue
+                    for qq in ([(a, b) for a in grid for b in grid if a <= b] if kind == "q" else list(grid)):
+                        env = {q: qq, "%s.center_point" % nodep: cp, "len(%s)" % C: k, "%s.shape[0]" % C: k, "%s.size" % C: 3 * k, C: True}
+                        for i in list(range(k)) + [-j - 1 for j in range(k)]:
+                            for col in (0, 1):
+                                env["%s[%d, %d]" % (C, i, col)] = rows[i][col]
+                                env["%s[%d][%d]" % (C, i, col)] = rows[i][col]
+                        for col, fn_ in ((0, min), (1, max)):
+                            pass
+                        for col in (0, 1):
+                            vals = [r_[col] for r_ in rows]
+                            for spelled, v_ in (("%s[:, %d].min()", min(vals)), ("%s[:, %d].max()", max(vals)), ("np.min(%s[:, %d])", min(vals)),
+                                                ("np.max(%s[:, %d])", max(vals)), ("min(%s[:, %d])", min(vals)), ("max(%s[:, %d])", max(vals))):
+                                env[spelled % (C, col)] = v_
+                        try:
+                            taken = all(bool(Interp(env, {"interval_overlaps": self.OV, "interval_contains": self.IN}).ev(t_)) == pol_ for t_, pol_ in chain)
+                        except AnalysisError as e_:
+                            raise AnalysisError("%s: the condition under which the centre rows are scanned is outside the model: %s" % (fname, e_))
+                        n += 1
+                        if not taken:
+                            hit = [rw for rw in rows if (OVspec(rw, qq) if kind == "q" else INspec(rw, qq))]
+                            if hit and bad is None:
+                                bad = {"centre rows": list(rows), "centre point": cp, "query": qq, "matching rows skipped": hit}
+        ctx.models.append({"rule": "C03.scan", "cases": n, "domain": "centre bins of 1..3 rows on a grid of 4 values, every query on the grid", "exhaustive": True})
+        ctx.ob(construct + ".always", bad is None, "scan performed only under %s; %d cases" % ([("%s" if p_ else "not (%s)") % norm(t_) for t_, p_ in chain], n),
+               "whenever the scan is skipped no centre row matches the query (rows %s)" % ("sorted by lower bound only" if by_lower else "in no particular order"),
+               node=comp, func=f, witness=bad)
 
     # -- C03.early -------------------------------------------------------------------
     def rule_early(self, fname, kind):
@@ -1364,3 +1415,6 @@ def run(ctx):
     # match(max_interval=<number>): the number of seconds, fraction included (shared with C04)
     from .C04 import rule_fraction
     ctx.attempt(rule_fraction, ctx, "C03.seconds")
+    # the caller's arguments (arrays, filter / fill dictionaries) are not modified: an in-place update makes the next call on the same objects wrong
+    from ..purity import rule_pure as _rule_args
+    ctx.attempt(_rule_args, ctx, "C03.args", [('typhon/files/fileset.py', 'FileSet.match'), ('typhon/trees.py', 'IntervalTree.__init__'), ('typhon/trees.py', 'IntervalTree.query'), ('typhon/trees.py', 'IntervalTree.query_points')], "the caller's arguments are not modified in place")
